@@ -17,7 +17,7 @@ from sa.term import Rat, Vec
 from sa.units import Unit
 from sa.witness import WitnessInterp, WitnessModel, items_of, sym_scalar
 
-from .common import callee_receiving, eq_term, events, history_free, returns, show
+from .common import callee_receiving, private_helper, eq_term, events, history_free, returns, show
 
 MOD = 'absorption.cylinder'
 FROZEN_DEGREE = {'disk12': (7, 1e-13), 'disk55': (17, 5e-7), 'disk256_cheb': (31, 1e-6)}
@@ -339,10 +339,8 @@ def run(tier: str) -> Run:
     select_fi = callee_receiving(repo, repo.func(MOD, 'Cylinder.quadrature'), 'kind')
     if select_fi is None:
         raise AnalysisError('Cylinder.quadrature hands its `kind` to no function of the package: the reference rule cannot be separated from its scaling')
-    try:
-        pfi = repo.func(MOD, '_cylinder_quadrature_from_product')
-    except AnalysisError:
-        pfi = None  # a private helper: without it the assembly is decided by the moments of the assembled rules (R2b)
+    # a private helper: without it (or with another signature) the assembly is decided by the moments of the assembled rules
+    pfi = private_helper(repo, MOD, '_cylinder_quadrature_from_product', ['disk_quadrature', 'line_quadrature'])
     if pfi is None:
         r3.ok('product rule assembly (no separate helper)', {'decided_by': 'moments of the assembled reference rules'})
     else:
